@@ -91,9 +91,9 @@ pub fn log2_zero() {
     assert!(lb == f32::NEG_INFINITY && ub == f32::NEG_INFINITY);
 }
 
-/// u32 / u64: the 16-bit-prefix reduction (h = top 16 bits, s = shift). Exact for the n whose bits
-/// below the prefix are zero (log2 n = log2 h + s is in the table); for the other n only the
-/// conditions that are necessary for every n with this prefix (never a false alarm).
+/// u32 / u64: the 16-bit-prefix reduction (h = top 16 bits, s = shift): the returned bounds must
+/// enclose a rigorous enclosure of log2 n derived from the exact table entry of h (necessary
+/// conditions, tight to ~2^-34: never a false alarm, and a bound that misses log2 n by more is caught).
 pub fn log2_wide(is64: bool) {
     let n: u64 = if is64 { nd::any() } else { nd::any::<u32>() as u64 };
     nd::assume(n > 0xffff);
@@ -106,13 +106,15 @@ pub fn log2_wide(is64: bool) {
         return;
     }
     let base = (s as f64) * TWO40;
-    let hi_limit = if h + 1 == 65536 { 16.0 * TWO40 } else { LOG2_CEIL[h + 1] as f64 } + base;
-    assert!((lb as f64) * TWO40 <= hi_limit, "lower bound above log2 of every n with this prefix");
-    assert!((ub as f64) * TWO40 >= LOG2_FLOOR[h] as f64 + base, "upper bound below log2 of every n with this prefix");
-    if n == (h as u64) << s {
-        assert!((lb as f64) * TWO40 <= LOG2_FLOOR[h] as f64 + base, "lower bound exceeds log2(n)");
-        assert!((ub as f64) * TWO40 >= LOG2_CEIL[h] as f64 + base, "upper bound below log2(n)");
-    }
+    // n = (h + j/2^s) * 2^s with 0 <= j < 2^s, so log2 n = log2 h + s + log2(1 + x), x = j / (h 2^s) < 2^-15,
+    // and  x <= log2(1 + x) <= x / ln 2  on [0, 1]: rigorous bounds on log2 n from the exact table entry of h.
+    let j = n - ((h as u64) << s);
+    let x = (j as f64) / (((h as u64) << s) as f64);
+    let slack = 64.0; // f64 rounding of the few operations above, in units of 2^-40
+    let lower = LOG2_FLOOR[h] as f64 + base + x * TWO40 - slack; // <= 2^40 log2 n
+    let upper = LOG2_CEIL[h] as f64 + base + x * 1.4427 * TWO40 + slack; // >= 2^40 log2 n
+    assert!((ub as f64) * TWO40 >= lower, "upper bound below log2(n)");
+    assert!((lb as f64) * TWO40 <= upper, "lower bound exceeds log2(n)");
     assert!(ub - lb <= 0.03125);
 }
 
@@ -164,6 +166,20 @@ pub fn nth_root_tiny(n: usize) {
     let r = small_u(v).nth_root(n);
     assert!(canonical_u(&r));
     assert!(val_u(&r) == (v != 0) as Word, "root of a value below 2^n must be 0 or 1");
+}
+
+/// nth_root(n) of 0 and of 1 for EVERY n >= 1 (n symbolic): 0 and 1
+pub fn nth_root_zero_one(one: bool) {
+    let n: usize = nd::any();
+    nd::assume(n >= 1);
+    let x = if one { ubig(&[1]) } else { ubig(&[]) };
+    let r = x.nth_root(n);
+    assert!(canonical_u(&r));
+    assert!(val_u(&r) == one as Word, "n-th root of 0 is 0 and of 1 is 1");
+    let xi = if one { ibig(POS, &[1]) } else { ibig(POS, &[]) };
+    let ri = xi.nth_root(n);
+    let (_, w) = ri.as_sign_words();
+    assert!(w.len() == one as usize);
 }
 
 /// sqrt / sqrt_rem / nth_root(1) / nth_root(2) of one-word values below 2^bits
@@ -264,6 +280,47 @@ pub fn gcd_small(bits: u32) {
         }
     };
     assert!(to_i(&s) * a as i128 + to_i(&t) * b as i128 == gv as i128);
+}
+
+/// gcd_ext(a, b) for a of N >= 3 structured words and a literal one-word b: g divides both, and
+/// s*a + t*b == g with the signs as returned (t is multi-word)
+pub fn gcd_ext_large_word<const N: usize, const P: usize>(b: Word, swap: bool) {
+    use core::cmp::Ordering;
+    let a: [Word; N] = smag::<N>(4);
+    let (g, s, t) = if swap { ubig(&[b]).gcd_ext(ubig(&a)) } else { ubig(&a).gcd_ext(ubig(&[b])) };
+    let (s, t) = if swap { (t, s) } else { (s, t) }; // s multiplies a, t multiplies b
+    let gw = val_u(&g);
+    assert!(gw != 0 && b % gw == 0);
+    // |s| * a and |t| * b as P-word naturals (P = N + 2)
+    let (ss, sw) = s.as_sign_words();
+    let (ts, tw) = t.as_sign_words();
+    assert!(sw.len() <= 1 && tw.len() <= N + 1);
+    let sv = if sw.is_empty() { 0 } else { sw[0] };
+    let mut sa = [0 as Word; P];
+    oracle::mul(&a, &[sv], &mut sa[..N + 1]);
+    let mut tarr = [0 as Word; P];
+    let mut i = 0;
+    while i < tw.len() {
+        tarr[i] = tw[i];
+        i += 1;
+    }
+    let mut tb = [0 as Word; P];
+    oracle::mul(&tarr[..N + 1], &[b], &mut tb[..N + 2]);
+    // s*a + t*b == g  with opposite signs (or one of them zero)
+    let mut diff = [0 as Word; P];
+    let gs = [gw];
+    match oracle::cmp(&sa, &tb) {
+        Ordering::Greater => {
+            oracle::sub(&sa, &tb, &mut diff);
+            assert!(oracle::cmp(&diff, &gs) == Ordering::Equal, "Bezout identity fails");
+            assert!(ss == POS && (oracle::is_zero(&tb) || ts == NEG), "Bezout signs wrong");
+        }
+        _ => {
+            oracle::sub(&tb, &sa, &mut diff);
+            assert!(oracle::cmp(&diff, &gs) == Ordering::Equal, "Bezout identity fails");
+            assert!(ts == POS && (oracle::is_zero(&sa) || ss == NEG), "Bezout signs wrong");
+        }
+    }
 }
 
 /// UBig::remove with a power-of-two factor (shift path) and a small odd factor on small values
